@@ -49,6 +49,8 @@ def dumpState (s : Core) : List String :=
   ++ addrs.flatMap (fun a => (List.range NDENOMS).filterMap (fun d =>
       let b := s.bank a d
       if b = 0 then none else some (join ["C", rAddr a, rNat d, rInt b])))
+  ++ [join ["I", rBool (sellingInvBroken s), rBool (payingInvBroken s), rBool (vestingInvBroken s),
+            rBool (allInvariantsBroken s)]]
 
 def lineEff : Eff → String
   | .hook i name args => join (["H", rNat i, name] ++ args)
